@@ -181,7 +181,7 @@ func hasClient(w *world, chain string) bool {
 // newWorld: own chain name symbolic, up to three registered clients with symbolic names.
 func newWorld() (*world, packetkeeper.Keeper, sdk.Context) {
 	w := &world{self: name("self"), status: map[string]exported.Status{}}
-	n := vp.Choice("nclients", 3)
+	n := vp.Choice("nclients", vp.Bound(3, 4))
 	for i := 0; i < n; i++ {
 		c := name("client")
 		vp.Assume(c != w.self) // invariant: a chain keeps no light client of itself
@@ -201,7 +201,7 @@ func nondetPacket(tag string) packettypes.Packet {
 		SourceChain:      name(tag + ".src"),
 		DestinationChain: name(tag + ".dst"),
 		RelayChain:       relay,
-		Data:             vp.Bytes(tag+".data", 0, 1),
+		Data:             vp.Bytes(tag+".data", 0, vp.Bound(1, 2)),
 	}
 }
 
